@@ -679,6 +679,11 @@ func c17ViewSequence(r *fw.Rec, kind, w, h int, sample bool) bool {
 				invs = 0
 				trace = append(trace, "RotateCounterClockwise")
 				ns, err := src.RotateCounterClockwise()
+				if kind != c17Ints && kind != c17YUV && !src.IsRotateSupported() {
+					// sources built from Go images support rotation, and every view of them (crop, invert,
+					// rotate, in any order) must keep supporting it: "four quarter-turns restore the original"
+					return fail("RotateCounterClockwise", "go-image-view-lost-rotate-support", fmt.Sprintf("a view of a Go-image source reports IsRotateSupported()=false after %v", trace))
+				}
 				if !src.IsRotateSupported() {
 					if err == nil {
 						return fail("RotateCounterClockwise", "unsupported-but-no-error", "IsRotateSupported()=false but RotateCounterClockwise returned no error")
